@@ -36,6 +36,7 @@ type tScenario struct {
 	Kind    string // bolt | local
 	Initial []tUpd // history written before the scenario starts (bolt)
 	Restart bool   // the transport is closed and reopened on the file before the scenario starts
+	Refused bool   // after the initial history, a publish the database refuses (key larger than bbolt accepts): it must leave no trace
 	Pubs    [][]tUpd
 	Subs    []tSubSpec
 	Close   bool
@@ -57,14 +58,15 @@ type tSubObs struct {
 }
 
 type tObs struct {
-	Pubs       []tPubObs
-	Subs       []tSubObs
-	History    []int
-	CloseStart int
-	CloseEnd   int
-	Panic      bool
-	Deadlock   bool
-	Panics     []string `json:",omitempty"`
+	Pubs           []tPubObs
+	OpenAfterClose bool // a call of Close returned while a subscriber registered before it began still had an open stream
+	Subs           []tSubObs
+	History        []int
+	CloseStart     int
+	CloseEnd       int
+	Panic          bool
+	Deadlock       bool
+	Panics         []string `json:",omitempty"`
 }
 
 var transCounter int64
@@ -99,6 +101,11 @@ func transScenario(sc tScenario, dir string) Scenario {
 			for _, u := range sc.Initial {
 				if err := bt.Dispatch(&mercure.Update{Topics: append([]string{}, u.Topics...), Private: u.Private, Event: mercure.Event{ID: strconv.Itoa(u.ID)}}); err != nil {
 					panic(err)
+				}
+			}
+			if sc.Refused {
+				if err := bt.Dispatch(&mercure.Update{Topics: []string{"a"}, Event: mercure.Event{ID: strings.Repeat("k", 40000)}}); err == nil {
+					panic("an update with a 40000-byte id was accepted")
 				}
 			}
 			if sc.Restart {
@@ -161,12 +168,44 @@ func transScenario(sc tScenario, dir string) Scenario {
 			}
 		}
 		clStart, clEnd := make([]int, ncl), make([]int, ncl)
+		drainSub := func(si int) {
+			s := subs[si]
+			if obs.Subs[si].Received == nil {
+				obs.Subs[si].Received = []int{}
+			}
+			if s == nil || obs.Subs[si].Closed {
+				return
+			}
+			for {
+				select {
+				case u, ok := <-s.Receive():
+					if !ok {
+						obs.Subs[si].Closed = true
+						return
+					}
+					id, _ := strconv.Atoi(u.ID)
+					obs.Subs[si].Received = append(obs.Subs[si].Received, id)
+				default:
+					return
+				}
+			}
+		}
 		for ci := 0; ci < ncl; ci++ {
 			ci := ci
 			threads = append(threads, func() {
 				clStart[ci] = tick()
 				_ = t.Close()
 				clEnd[ci] = tick()
+				// every stream registered before this call began is over now (draining here changes nothing for the
+				// transport: nothing is sent to a disconnected subscriber)
+				for si := range subs {
+					if o := &obs.Subs[si]; o.End != 0 && o.End < clStart[ci] && !o.Err && o.LeftAt == 0 {
+						drainSub(si)
+						if !o.Closed {
+							obs.OpenAfterClose = true
+						}
+					}
+				}
 			})
 		}
 		collect := func(deadlock bool, panics []string) string {
@@ -185,25 +224,8 @@ func transScenario(sc tScenario, dir string) Scenario {
 				obs.Pubs = append(obs.Pubs, p...)
 			}
 			if !deadlock && len(panics) == 0 {
-				for si, s := range subs {
-					obs.Subs[si].Received = []int{}
-					if s == nil {
-						continue
-					}
-				drain:
-					for {
-						select {
-						case u, ok := <-s.Receive():
-							if !ok {
-								obs.Subs[si].Closed = true
-								break drain
-							}
-							id, _ := strconv.Atoi(u.ID)
-							obs.Subs[si].Received = append(obs.Subs[si].Received, id)
-						default:
-							break drain
-						}
-					}
+				for si := range subs {
+					drainSub(si)
 				}
 				_ = t.Close()
 				obs.History = []int{}
@@ -282,6 +304,7 @@ func genTrans(r *hx.Rng) tScenario {
 			sc.Initial = append(sc.Initial, mk())
 		}
 		sc.Restart = len(sc.Initial) > 0 && r.Chance(0.4)
+		sc.Refused = r.Chance(0.3)
 	}
 	npub := 1 + r.Intn(2)
 	for p := 0; p < npub; p++ {
@@ -344,6 +367,11 @@ func runTrans(a args) error {
 		{Kind: "bolt", Initial: []tUpd{{1, []string{"a"}, false}, {2, []string{"a"}, false}}, Restart: true,
 			Pubs: [][]tUpd{{{3, []string{"a"}, false}}}, Subs: []tSubSpec{{Topics: []string{"a"}, Req: "1"}}},
 		{Kind: "bolt", Pubs: [][]tUpd{{{1, []string{"a"}, false}, {2, []string{"a"}, false}}}, Subs: []tSubSpec{{Topics: []string{"a"}, Req: "earliest"}}},
+		// a refused publish, then a publish racing the registration of a subscriber that replays (the stale cut-off defect)
+		{Kind: "bolt", Initial: []tUpd{{1, []string{"a"}, false}}, Refused: true,
+			Pubs: [][]tUpd{{{2, []string{"a"}, false}}}, Subs: []tSubSpec{{Topics: []string{"a"}, Req: "1"}}},
+		{Kind: "bolt", Initial: []tUpd{{1, []string{"a"}, false}}, Refused: true,
+			Pubs: [][]tUpd{{{2, []string{"a"}, false}, {3, []string{"b"}, false}}}, Subs: []tSubSpec{{Topics: []string{"*"}, Req: "earliest"}}},
 		{Kind: "local", Pubs: [][]tUpd{{{1, []string{"a"}, false}}, {{2, []string{"a"}, false}}}, Subs: []tSubSpec{{Topics: []string{"*"}}}},
 		{Kind: "bolt", Pubs: [][]tUpd{{{1, []string{"a"}, false}}}, Subs: []tSubSpec{{Topics: []string{"a"}}}, Close: true},
 		// two publishers and a connected subscriber on the persistent transport: the live order is the stored order
@@ -417,14 +445,14 @@ func runTrans(a args) error {
 				ss = append(ss, fmt.Sprintf("{| ts_err := %s; ts_start := %d; ts_end := %d; ts_left := %d; ts_received := %s; ts_closed := %s |}",
 					ce.Bool(s.Err), s.Start, s.End, s.LeftAt, coqInts(s.Received), ce.Bool(s.Closed)))
 			}
-			obsTerms = append(obsTerms, fmt.Sprintf("{| to_pubs := %s; to_subs := %s; to_history := %s; to_close_start := %d; to_close_end := %d; to_panic := %s; to_deadlock := %s |}",
-				ce.List(ps), ce.List(ss), coqInts(o.History), o.CloseStart, o.CloseEnd, ce.Bool(o.Panic), ce.Bool(o.Deadlock)))
+			obsTerms = append(obsTerms, fmt.Sprintf("{| to_pubs := %s; to_subs := %s; to_history := %s; to_close_start := %d; to_close_end := %d; to_panic := %s; to_deadlock := %s; to_open_after_close := %s |}",
+				ce.List(ps), ce.List(ss), coqInts(o.History), o.CloseStart, o.CloseEnd, ce.Bool(o.Panic), ce.Bool(o.Deadlock), ce.Bool(o.OpenAfterClose)))
 			obsDesc = append(obsDesc, map[string]any{"outcome": o, "schedule": schedString(ex.Outcomes[k])})
 		}
 		term := fmt.Sprintf("{| tc_persistent := %s; tc_cap := 2%%nat; tc_initial := %s; tc_reqs := %s; tc_mt := %s; tc_obs := %s |}",
 			ce.Bool(sc.Kind == "bolt"), coqInts(initial), ce.List(reqs), ce.List(mt), ce.List(obsTerms))
 		out.Add(term, map[string]any{"scenario": sc, "schedules": ex.Schedules, "exhausted_bound": ex.Exhausted, "op_granularity_runs": ex.CoarseRuns, "op_granularity_exhaustive": ex.CoarseExhausted, "preemption_bound": bound, "outcomes": obsDesc},
-			len(keys) > 1, "transport:"+sc.Kind, fmt.Sprintf("outcomes:%d", min(len(keys), 8)), fmt.Sprintf("close:%v", sc.Close), fmt.Sprintf("restart:%v", sc.Restart))
+			len(keys) > 1, "transport:"+sc.Kind, fmt.Sprintf("outcomes:%d", min(len(keys), 8)), fmt.Sprintf("close:%v", sc.Close), fmt.Sprintf("restart:%v", sc.Restart), fmt.Sprintf("refused-publish-before:%v", sc.Refused))
 	}
 	out.Extra["schedules_explored"] = total
 	out.Extra["preemption_bound"] = bound
